@@ -33,7 +33,7 @@ lane() {
   mkdir -p "$G"
   (cd "$VERIF/gensim" && tar cf - --exclude=target --exclude=build.log .) | (cd "$G" && tar xf -)
   # the simulator names the repository by absolute path in a handful of places
-  grep -rl '/repo' "$G" --include='*.rs' --include='*.toml' | xargs sed -i "s#\"/repo#\"$REPO#g"
+  grep -rl '/repo' "$G" --include='*.rs' --include='*.toml' | xargs sed -i "s#\\([^.]\\)/repo\\([/\"]\\)#\\1$REPO\\2#g"
   local BIN="$G/target/release/gensim"
   local fallback=""
   build() {
@@ -53,6 +53,9 @@ lane() {
     [ -f "$p" ] || continue
     local name; name=$(echo "$p" | sed 's#/patch.diff##; s#\.diff$##; s#\.sh$##')
     local want=detect; case "$p" in */silent/*) want=silent;; esac
+    # a seeded change that was judged to be outside what the property says (meta.json says so and
+    # why) is expected to stay undetected; if it is ever detected the record needs another look
+    if [ -f "$(dirname "$p")/meta.json" ] && grep -q '"expected": *"not-detected' "$(dirname "$p")/meta.json"; then want=miss; fi
     git -C "$REPO" checkout -q -- . ; git -C "$REPO" clean -fdq
     if [[ "$p" == *.sh ]]; then
       if ! (cd "$REPO" && bash "$VERIF/$p") >"$OUT/apply.err" 2>&1; then
@@ -86,6 +89,7 @@ lane() {
     local ok=1
     if [ $want = detect ] && [ "$got" != exit1 ]; then ok=0; fi
     if [ $want = silent ] && [ "$got" != exit0 ]; then ok=0; fi
+    if [ $want = miss ] && [ "$got" != exit0 ]; then ok=0; fi
     [ $ok -eq 0 ] && got="$got <<<MISMATCH"
     printf "%-52s %-7s %-8s %s\n" "$name" $want "$got" "$detail" >>"$L/result"
   done
